@@ -120,6 +120,11 @@ func (c *Config) getCacheTTL(resp *TokenInfo) time.Duration {
 		},
 		func() time.Duration { return 0 })
 
+	// the token expires within the leeway (or is already expired): it must not be cached
+	if !resp.Expiry.IsZero() && tokenEndpointResponseTTL == 0 {
+		return 0
+	}
+
 	configuredTTL := x.IfThenElseExec(c.TTL != nil,
 		func() time.Duration { return *c.TTL },
 		func() time.Duration { return 0 })
